@@ -246,6 +246,10 @@ B("C13", "ATOB_RE requires double quotes", B64, "ATOB_RE = rb\"atob\\(['\\\"]([A
 B("C13", "hex decodes lower-cased slice", HEXF, 'Node("", unhexlify(match.group(0)), "decoded.hexadecimal", *match.span(0))', 'Node("", unhexlify(match.group(0)[2:]), "decoded.hexadecimal", *match.span(0))', "R1-provenance")
 B("C13", "slash rule 3/32 -> 3/16", B64, "> 3 / 32:", "> 3 / 16:", "R3-acceptance")
 B("C13", "xor applied to a different buffer", B64, "b64_node = apply_xor_key(xorkey, b64, b64_node, POWERSHELL_BYTES_TYPE)", "b64_node = apply_xor_key(xorkey, match.group(2), b64_node, POWERSHELL_BYTES_TYPE)", "R4-xor")
+B("C13", "raw match decoded (seed s27)", B64, "b64_result = binascii.a2b_base64(b64_string)", "b64_result = binascii.a2b_base64(b64_match.group())", "R1-provenance")
+B("C13", "HTML escapes not removed before the rules", B64, '            re.sub(HTML_ESCAPE_RE, b"", b64_match.group())\n', '            b64_match.group()\n', "R")
+B("C13", "HTML_ESCAPE_RE loses the decimal form", B64, 'HTML_ESCAPE_RE = rb"&#(?:x[a-fA-F0-9]{1,4}|\\d{1,4});"', 'HTML_ESCAPE_RE = rb"&#(?:x[a-fA-F0-9]{1,4});"', "R")
+N("C13", "decoded text is the raw match minus escapes (a2b skips the breaks)", B64, "b64_result = binascii.a2b_base64(b64_string)", 'b64_result = binascii.a2b_base64(re.sub(HTML_ESCAPE_RE, b"", b64_match.group()))')
 N("C13", "threshold written as < 7", B64, "len(set(b64_string)) <= MIN_B64_CHARS", "len(set(b64_string)) < MIN_B64_CHARS + 1")
 N("C13", "regex equal-language rewrite", HEXF, 'HEX_RE = rb"((?:[a-f0-9]{2}){10,}|(?:[A-F0-9]{2}){10,})"', 'HEX_RE = rb"((?:[0-9a-f][0-9a-f]){10,}|(?:[0-9A-F]{2}){10,})"')
 N("C13", "xor operands swapped", XH, "data = bytes(b ^ xorkey for b in data)", "data = bytes(xorkey ^ b for b in data)")
